@@ -15,7 +15,8 @@ EXPLANATION = (
     "Compiler::add_module resets typer, analyzer and linter to Default and delegates to Generator::add_module; "
     "R4 Generator::add_module clears every handle table (shared with C03.R1); R5 no iteration over hash containers in "
     "the expander (order of spliced declarations is deterministic); R6 get_key_offset tries the exact path first and "
-    "then the path relative to the includer's parent. Behavioural equivalence of split programs is not decided.")
+    "then the path relative to the includer's parent. Behavioural equivalence of split programs is not decided."
+    " ADDED LATER: R7 struct types of different modules must not share a name in the LLVM context (known finding); R8 an exported constant's initialiser is copied verbatim before names are resolved (known finding).")
 
 DECL = "alpha::common::Declaration"
 
